@@ -59,12 +59,23 @@ BuildCnt(FN, f) == IF Len(f) = Len(FN) THEN f
 BigCounts(FN) == BuildCnt(FN, <<>>)
 
 \* ---------------------------------------------------------------- is a tree one of those a node represents
-\* trees: <<"T", sym, s, e>> / <<"N", prod, s, e, <<kids>>>>
-RECURSIVE Rep(_, _, _)
-Rep(FN, t, n) ==
-  \E i \in DOMAIN FN[n].alts :
-    LET a == FN[n].alts[i] IN
-    IF IsTok(a) THEN t[1] = "T" /\ t[2] = a.t /\ t[3] = a.s /\ t[4] = a.e
-    ELSE /\ t[1] = "N" /\ t[2] = a.p /\ t[3] = a.s /\ t[4] = a.e /\ Len(t[5]) = Len(a.c)
-         /\ \A j \in DOMAIN a.c : Rep(FN, t[5][j], a.c[j])
+\* A tree is a FLAT preorder sequence of records [k |-> "T", t, s, e, n |-> 0] / [k |-> "N", p, s, e, n |-> number of kids]
+\* (nested JSON is limited to 255 levels by the reader; left-recursive lists are deeper than that).
+\* RepEnd(FN, T, i, n) = the index just after the subtree that starts at T[i] if node n represents that subtree, else 0.
+RECURSIVE RepEnd(_, _, _, _)
+RECURSIVE KidsEnd(_, _, _, _, _)
+RECURSIVE ScanAlts(_, _, _, _, _)
+KidsEnd(FN, T, i, kids, j) ==        \* the kids j.. of an alternative against the subtrees starting at T[i]
+  IF j > Len(kids) THEN i
+  ELSE LET nxt == RepEnd(FN, T, i, kids[j]) IN IF nxt = 0 THEN 0 ELSE KidsEnd(FN, T, nxt, kids, j + 1)
+\* the alternatives a.. of node n against the subtree at T[i]: the first that fits decides (each is tried once; a wrong one fails at a header)
+ScanAlts(FN, T, i, n, a) ==
+  IF a > Len(FN[n].alts) THEN 0
+  ELSE LET alt == FN[n].alts[a]
+           x == T[i]
+           r == IF IsTok(alt) THEN (IF x.k = "T" /\ x.t = alt.t /\ x.s = alt.s /\ x.e = alt.e THEN i + 1 ELSE 0)
+                ELSE IF x.k = "N" /\ x.p = alt.p /\ x.s = alt.s /\ x.e = alt.e /\ x.n = Len(alt.c) THEN KidsEnd(FN, T, i + 1, alt.c, 1) ELSE 0
+       IN IF r # 0 THEN r ELSE ScanAlts(FN, T, i, n, a + 1)
+RepEnd(FN, T, i, n) == IF i > Len(T) THEN 0 ELSE ScanAlts(FN, T, i, n, 1)
+Rep(FN, T, n) == Len(T) > 0 /\ RepEnd(FN, T, 1, n) = Len(T) + 1
 =============================================================================
